@@ -74,10 +74,10 @@ def buf_some(t):
     return None
 
 
-def paths(ctx, remap=None):
+def paths(ctx, remap=None, only=None):
     facts = ctx.facts
     if remap:
-        ctx = _Remap(ctx, remap)
+        ctx = _Remap(ctx, remap, only)
     fn, lv = leaves(ctx, conn.TRY_WRITE)
     ctx.ob("R06.1", "no-cycle", not fn.cycles(), "try_write has no CFG cycle (cycles: %s)" % fn.cycles(), fn.loc(0))
     seen = set()
@@ -255,15 +255,20 @@ def fifo(ctx, rule, field, allowed, floor=3):
 class _Remap:
     """Report the obligations of shared rules under another property's rule id."""
 
-    def __init__(self, ctx, rule):
+    def __init__(self, ctx, rule, only=None):
         self._ctx = ctx
         self._rule = rule
+        self._only = only
         self.facts = ctx.facts
 
     def ob(self, rule, key, ok, msg, loc=None, witness=None):
+        if self._only is not None and rule not in self._only:
+            return True
         return self._ctx.ob(self._rule, "%s|%s" % (rule, key), ok, msg, loc, witness)
 
     def fail(self, rule, key, msg, loc=None, witness=None):
+        if self._only is not None and rule not in self._only:
+            return False
         return self._ctx.fail(self._rule, "%s|%s" % (rule, key), msg, loc, witness)
 
     def __getattr__(self, name):
